@@ -57,6 +57,16 @@ FAULTABLE = {
 }
 
 
+# read-side calls that a plan may fail once (transiently), addressed as (kind, nth call of that kind)
+READ_FAULTABLE = {
+    "open_r": ("EMFILE", "EACCES", "EIO"),
+    "mmap": ("ENOMEM", "ENODEV"),
+    "read": ("EIO",),
+    "stat": ("EACCES", "EIO"),
+    "samefile": ("EACCES", "EIO"),
+}
+
+
 class SeamLost(Exception):
     pass
 
@@ -152,7 +162,7 @@ class FsSeam:
 
     def read_fault(self, kind: str, path) -> None:
         """Raise the planned transient OSError for the nth read-side call of this kind, if any."""
-        if not self.enabled or not self.read_faults:
+        if not self.enabled:
             return
         nth = self.read_kind_counts.get(kind, 0)
         self.read_kind_counts[kind] = nth + 1
@@ -274,12 +284,14 @@ class ReadFile:
         self._ino = ino
 
     def read(self, *a):
+        self._seam.read_fault("read", self._path)
         data = self._real.read(*a)
         if data:
             self._seam.read_event("read", self._path, self._ino)
         return data
 
     def readinto(self, b):
+        self._seam.read_fault("read", self._path)
         n = self._real.readinto(b)
         if n:
             self._seam.read_event("read", self._path, self._ino)
@@ -313,6 +325,7 @@ def make_open(seam: FsSeam):
             if "b" not in mode:
                 return real
             return SimFile(seam, real, file)
+        seam.read_fault("open_r", file)
         real = real_open(file, mode, *args, **kwargs)
         ino = None
         try:
@@ -341,6 +354,7 @@ class _PathProxy:
 
     def samefile(self, a, b):
         self._seam.read_event("samefile", a)
+        self._seam.read_fault("samefile", a)
         return _real_os.path.samefile(a, b)
 
     def islink(self, p):
@@ -463,6 +477,7 @@ class MmapProxy:
             self._seam.read_event("mmap", f"fd:{fileno}", (st.st_dev, st.st_ino))
         except Exception:  # noqa: BLE001
             self._seam.read_event("mmap", f"fd:{fileno}", None)
+        self._seam.read_fault("mmap", None)
         return _real_mmap.mmap(fileno, length, *a, **kw)
 
 
